@@ -1518,7 +1518,7 @@ def run(tier, seed):
     sl = [c[2] for c in rng.sample(cat, 130)] + [c[2] for c in cat[:10]]
     vm = common.vm_compute_slice(PROP, VM_PREAMBLE, [coq_expr_of(l) for l in sl])
     orc_sl = common.run_tool(orc, sl, shards=1)
-    vm_bad = [(l, x, y) for l, x, y in zip(sl, vm, orc_sl) if x.encode("latin-1") != bytes.fromhex(y)]
+    vm_bad = [(l, x, y) for l, x, y in zip(sl, vm, orc_sl) if x is not None and x.encode("latin-1") != bytes.fromhex(y)]
     if vm_bad:
         res.violation("extracted oracle and vm_compute disagree on %r: %r vs %r" % vm_bad[0], {"kind": "extraction", "case": list(vm_bad[0])}, no_input=True)
 
